@@ -29,7 +29,7 @@ ASSUMPTIONS = [
     "requests the statement does not list as invalid (device index >= num_devices, unregistered configuration, later rank change) are not generated",
     "values are renamed only to non-empty names (an unnamed sharded value cannot be serialized and the library's checker reports it by design)",
 ]
-BUDGET = {"quick": (16, 500), "thorough": (16, 10000)}
+BUDGET = {"quick": (16, 1500), "thorough": (16, 10000)}
 OPN = 16
 WEIGHTED = [0, 1, 1, 1, 2, 2, 2, 3, 4, 4, 4, 5, 6, 6, 7, 8, 9, 10, 11, 11, 12, 13, 14, 14, 15]
 
